@@ -134,6 +134,25 @@ TSnap ==
        \* C14: a destination that failed at any point makes Snapshot return an error
        [] Ev.at = "ret"     -> /\ Ev.dstfailed => Ev.err
                                /\ IF Ev.err THEN (SnapFail(Ev.t) \/ SnapBusy(Ev.t, Ev.c)) ELSE SnapCopy(Ev.t, Ev.file)
+\* A file written beside really parallel writers (par/c08, file "pf1"): commits to DIFFERENT blocks reach the recorder in an
+\* order nothing observes (recorder append and logger call are separate steps under different latches), and Restore replays
+\* the file's order. Such commits commute; per block the order is the latch order, which the log has. An unlogged step moves
+\* the first recorded commit of the block the next replayed commit belongs to in front of the commits of other blocks.
+ParFile == "pf1"
+TRestoreReorder ==
+  /\ l <= Len(TraceLog) /\ l' = l /\ Ev.e = "apply"
+  /\ txn[Ev.t].pc = "restoring" /\ txn[Ev.t].rs.file = ParFile
+  /\ LET F == files[ParFile]
+         its == FileItems(F)
+         i == NextEffective(F, txn[Ev.t].rs.pos)
+         cand == {j \in (i + 1)..Len(its) : Effective(F, its[j]) /\ its[j].b = Ev.b}
+     IN /\ i # 0 /\ its[i].kind = "commit" /\ its[i].b # Ev.b /\ cand # {}
+        /\ LET a == i - F.nb
+               z == MinOf(cand) - F.nb
+               lg == F.log
+           IN files' = [files EXCEPT ![ParFile].log =
+                          SubSeq(lg, 1, a - 1) \o <<lg[z]>> \o SubSeq(lg, a, z - 1) \o SubSeq(lg, z + 1, Len(lg))]
+  /\ UNCHANGED <<st, txn, used, dev>>
 TRestore ==
   /\ Is("restore")
   /\ IF Ev.at = "begin" THEN RestoreBegin(Ev.t, Ev.c, Ev.file, Ev.trunc) ELSE RestoreEnd(Ev.t, Ev.err)
@@ -222,7 +241,7 @@ Diag == IF Ev.e = "dump" THEN DumpDiag ELSE IF Ev.e = "apply" THEN ApplyDiag ELS
 TNext == \/ TReset \/ TDrop \/ TRes \/ TLogEnd \/ TCreateCol \/ TDropCol \/ TCreateIdx \/ TDropIdx \/ TCreateSort \/ TCreateTrig \/ TDropTrig \/ TTransport
          \/ TBulkIns \/ TBulkDel \/ TBulkReplay
          \/ TBegin \/ TSel \/ TReserve \/ TInsFail \/ TWrite \/ TDelete \/ TDeleteAll \/ TFilter \/ TCount \/ TRange \/ TAgg \/ TDelMiss \/ TKDelete \/ TKeyCheck \/ TKeyEnd \/ TRollback \/ TCommitStart
-         \/ TApply \/ TAfter \/ TSnap \/ TRestore \/ TReplay \/ TRead \/ TDump
+         \/ TApply \/ TAfter \/ TSnap \/ TRestoreReorder \/ TRestore \/ TReplay \/ TRead \/ TDump
 TSpec == TInit /\ [][TNext]_tvars
 
 \* acceptance: high-water mark of l and union of deviations, kept in a TLC register (needs -workers 1)
